@@ -515,6 +515,174 @@ def _control_feedback(rng, stmts, widths):
         ctrl[rng.randrange(len(ctrl))] = high
 
 
+# -- defaults with overrides ---------------------------------------------------------------------------
+# `a.eq(<signals / slices / Cat only>)` followed by `with m.If(c): a.eq(...)`: the unconditional assignment
+# becomes the *default* of the signal's assignment list, the conditional ones its entries. A combinational loop can
+# close through that default alone (a = b; if c: a = 0; b = rotate(a)); the legal neighbours shift instead of
+# rotating, so that bits of a signal feed other bits of the same signal and no bit reaches itself.
+
+DEF_PERMS = ["id", "rev", "rot", "swap"]
+DEF_OVERRIDE_KINDS = BIT_KINDS + ["copy", "copy", "+", "-", "==", "<", "any", "rxor", "neg", "muxw", "*", "<<"]
+
+
+def _wiring(rng, how, src, ws, w):
+    """w bit references into signal `src` (ws bits wide): a pure rearrangement (constants where it runs out of bits),
+    realised by _mkval as slices and Cat"""
+    k = rng.randrange(1, ws) if ws > 1 else 1
+    out = []
+    for i in range(w):
+        if how == "id":
+            j = i
+        elif how == "rev":
+            j = ws - 1 - i
+        elif how == "rot":
+            j = (i + k) % ws if i < ws else -1
+        elif how == "swap":
+            j = (i + ws // 2) % ws if i < ws else -1
+        elif how == "shift":
+            j = i + k
+        elif how == "shiftl":
+            j = i - k
+        else:
+            raise AssertionError(how)
+        out.append([src, j] if 0 <= j < ws else ["c", 0])
+    return out
+
+
+def gen_default_case(rng):
+    nmods = rng.choice([1, 1, 2, 3])
+    tree = _tree(rng, nmods)
+    w = rng.choice([2, 3, 4, 4])
+    template = rng.choice(["other", "other", "other", "self", "self", "chain"])
+    intent = rng.choice(["loop", "loop", "legal", "legal", "free"])
+    direction = rng.choice(["shift", "shiftl"])
+    widths = [w]
+    nhops = {"other": 2, "self": 1, "chain": 3}[template]
+    if intent == "loop":
+        hops = [rng.choice(DEF_PERMS) for _ in range(nhops)]
+        if template == "self" and hops[0] == "id":
+            hops[0] = "rot"                     # a.eq(a) as a default is a loop too, but a boring one
+    elif intent == "legal":
+        # indices only ever move one way: no bit can reach itself
+        hops = [rng.choice(["id", direction]) for _ in range(nhops)]
+        hops[rng.randrange(nhops)] = direction
+    else:
+        hops = [rng.choice(DEF_PERMS + ["shift", "shiftl"]) for _ in range(nhops)]
+    # signals: 0 = a; then the other members of the ring; then the inputs (never driven)
+    ring = [0]
+    for _ in range(nhops - 1):
+        widths.append(w if rng.random() < 0.8 else rng.choice([2, 3, 4]))
+        ring.append(len(widths) - 1)
+    n_ring_bits = sum(widths)
+    ctrl = len(widths)
+    widths.append(2)
+    dat = len(widths)
+    widths.append(w)
+    designbits = [(s, b) for s in ring for b in range(widths[s])]
+    inbits = [(ctrl, 0), (ctrl, 1)] + [(dat, b) for b in range(w)]
+    back = rng.random() < 0.15          # now and then the overrides take bits of the ring as well
+
+    def operand(n):
+        bits = []
+        for _ in range(n):
+            r = rng.random()
+            if r < 0.1:
+                bits.append(["c", rng.randrange(2)])
+            else:
+                x = rng.choice(designbits) if (back and r < 0.5) else rng.choice(inbits)
+                bits.append([x[0], x[1]])
+        return bits
+
+    def conditional(st):
+        st["cond"] = rng.choice(["if1", "if1", "ifw", "case", "else", "elif", "nest"])
+        if st["cond"] in ("if1", "else"):
+            st["cbits"] = operand(1)
+        elif st["cond"] in ("ifw", "case"):
+            st["cbits"] = operand(2)
+            st["cpat"] = "".join(rng.choice("01-") for _ in st["cbits"])
+        else:
+            st["cbits"] = operand(1)
+            st["cbits2"] = operand(1)
+
+    def override(tsig, lo, hi, mod, dom):
+        if hi - lo >= 2 and rng.random() < 0.5:
+            a = rng.randrange(lo, hi)
+            b = rng.randint(a + 1, hi)
+            lo, hi = a, b
+        n = hi - lo
+        k = rng.choice(DEF_OVERRIDE_KINDS)
+        st = {"tsig": tsig, "lo": lo, "hi": hi, "mod": mod, "dom": dom, "kind": k, "role": "override"}
+        if k in ("copy", "not"):
+            st["ops"] = [operand(n)]
+        elif k in ("and", "or", "xor"):
+            st["ops"] = [operand(n), operand(n)]
+        elif k == "mux":
+            st["ops"] = [operand(1), operand(n), operand(n)]
+        elif k == "muxw":
+            st["ops"] = [operand(2), operand(n), operand(n)]
+        elif k in ("any", "rxor", "neg"):
+            st["ops"] = [operand(rng.choice([1, 2, 3]))]
+        else:
+            st["ops"] = [operand(rng.choice([1, 2, 3])), operand(rng.choice([1, 2]))]
+        conditional(st)
+        return st
+
+    groups = []
+    shapes = []
+    # every member of the ring but the last takes its *default* from the next one; the last one closes the ring
+    for pos, tsig in enumerate(ring):
+        wt = widths[tsig]
+        src = ring[(pos + 1) % len(ring)]
+        closing = template != "self" and pos == len(ring) - 1 and not (template == "chain" and rng.random() < 0.3)
+        mod = rng.randrange(nmods)
+        bits = _wiring(rng, hops[pos], src, widths[src], wt)
+        if closing:
+            # b = f(a): a rearrangement, a bit-precise operator, or (never when a legal design is intended) a word-level one
+            r = rng.random()
+            st = {"tsig": tsig, "lo": 0, "hi": wt, "mod": mod, "dom": "comb", "cond": None, "role": "close"}
+            if r < 0.65:
+                st.update(kind="copy", ops=[bits])
+            elif r < 0.75:
+                st.update(kind="not", ops=[bits])
+            elif r < 0.85 or intent == "legal":
+                st.update(kind="xor", ops=[bits, operand(wt)])
+            else:
+                st.update(kind=rng.choice(["+", "-"]), ops=[bits, operand(rng.choice([1, 2]))])
+            if rng.random() < 0.3:
+                conditional(st)
+            groups.append([st])
+            shapes.append("close:" + st["kind"] + ("" if st["cond"] is None else "+cond"))
+            continue
+        r = rng.random()
+        variant = "full" if r < 0.65 else "split" if (r < 0.8 and wt >= 2) else "partial-default" if (r < 0.9 and wt >= 2) else "sync"
+        dom = "sync" if variant == "sync" else "comb"
+        r = rng.random()
+        if r < 0.07:
+            bits = bits[:-1] or bits            # a shorter right-hand side is zero-extended
+        elif r < 0.14:
+            bits = bits + operand(1)            # a longer one is truncated
+        parts = [(0, wt, mod)]
+        if variant == "split":
+            h = rng.randrange(1, wt)
+            parts = [(0, h, mod), (h, wt, rng.randrange(nmods))]
+        elif variant == "partial-default":
+            parts = [rng.choice([(0, wt - 1, mod), (1, wt, mod)])]
+        for lo, hi, pm in parts:
+            g = [{"tsig": tsig, "lo": lo, "hi": hi, "mod": pm, "dom": dom, "kind": "copy", "cond": None,
+                  "ops": [bits[lo:hi] if variant != "full" else bits], "role": "default"}]
+            olo, ohi = (lo, hi) if variant == "split" else (0, wt)
+            for _ in range(rng.choice([1, 1, 2])):
+                g.append(override(tsig, olo, ohi, pm, dom))
+            groups.append(g)
+        shapes.append(f"default:{variant}:{hops[pos]}")
+    rng.shuffle(groups)
+    stmts = [st for g in groups for st in g]
+    ports = [s for s in range(len(widths)) if rng.random() < 0.7]
+    return {"family": "cycle", "widths": widths, "tree": tree, "stmts": stmts, "ports": ports, "special": {},
+            "via": rng.choice(["build_netlist"] * 8 + ["convert"]),
+            "shape": {"template": template, "intent": intent, "parts": shapes, "back": back}}
+
+
 def _mkval(sigs, bits):
     """a Value made of the given bits: slices for runs, Cat for the rest"""
     from amaranth.hdl import Cat, Const
@@ -633,7 +801,12 @@ def stmt_deps(st, expr_len, expr_signed, special=None):
 
 
 def build_cycle_design(case):
-    """returns (top module, ports, abstract dependency map {(sig,bit): set((sig,bit))})"""
+    """returns (top module, ports, abstract dependency map {(sig,bit): set((sig,bit))}, signals)"""
+    return _build_cycle_design(case)[:4]
+
+
+def _build_cycle_design(case):
+    """build_cycle_design + the dependency map without the statements marked role=default (for the histograms)"""
     from amaranth.hdl import Module, Signal, ClockDomain
     widths = case["widths"]
     special = case.get("special") or {}
@@ -646,6 +819,7 @@ def build_cycle_design(case):
     mods = [Module() for _ in case["tree"]]
     dummies = [Signal(name=f"dummy{k}") for k in range(len(mods))]
     absdeps = {(s, b): set() for s, w in enumerate(widths) for b in range(w)}
+    nodef = {k: set() for k in absdeps}
     for st in case["stmts"]:
         m = mods[st["mod"]]
         dummy = dummies[st["mod"]]
@@ -680,6 +854,8 @@ def build_cycle_design(case):
         sh = e.shape()
         for i, ds in stmt_deps(st, sh.width, sh.signed, special).items():
             absdeps[(st["tsig"], st["lo"] + i)] |= ds
+            if st.get("role") != "default":
+                nodef[(st["tsig"], st["lo"] + i)] |= ds
     # emit_drivers: a signal whose only driver is one (module, domain) pair is driven in all its bits by
     # that driver; if the domain is synchronous, also the unassigned bits are flip-flop outputs
     if special:
@@ -691,7 +867,12 @@ def build_cycle_design(case):
     mods[0].domains.sync = cd
     for k in range(len(mods) - 1, 0, -1):
         mods[case["tree"][k]].submodules[f"m{k}"] = mods[k]
-    return mods[0], [sigs[p] for p in case["ports"]], absdeps, sigs
+    return mods[0], [sigs[p] for p in case["ports"]], absdeps, sigs, nodef
+
+
+def _cyclic(widths, deps):
+    cells = [("b", w, [], [sorted(deps[(s, b)]) for b in range(w)]) for s, w in enumerate(widths)]
+    return certificate(graph_succ(cells))[0] == "cyc"
 
 
 # -- small-graph enumeration -----------------------------------------------------------------------
@@ -940,12 +1121,25 @@ def run_cycle_case(case, public_too):
     from amaranth.hdl import _ir, _nir
     from amaranth.back import rtlil
     builder = build_enum_design if case["family"] == "cycle-enum" else build_cycle_design
-    top, ports, absdeps, sigs = builder(case)
+    defaults = None
+    if case["family"] != "cycle-enum" and any(st.get("role") == "default" for st in case["stmts"]):
+        top, ports, absdeps, sigs, nodef = _build_cycle_design(case)
+        cyc, cyc_nodef = _cyclic(case["widths"], absdeps), _cyclic(case["widths"], nodef)
+        defaults = {"class": ("loop closes only through a default" if cyc and not cyc_nodef else
+                              "loop also without the defaults" if cyc else "loop-free")}
+    else:
+        top, ports, absdeps, sigs = builder(case)
     abs_req = abstract_request(case["widths"], absdeps)
     design = Fragment.get(top, None).prepare(ports=ports, hierarchy=("top",))
     netlist = _nir.Netlist()
     _ir._emit_netlist(netlist, design)
     cells, roots, problems, pos = dump_netlist_graph(netlist)
+    if defaults is not None:
+        # for the histograms only: how many assignment lists of the emitted netlist got a default that is a wire
+        # (not a constant, not a cell output) - i.e. the unconditional assignment really was folded into `default`
+        lists = [c for c in netlist.cells if type(c).__name__ == "AssignmentList"]
+        defaults["assignment_lists"] = len(lists)
+        defaults["with_wire_default"] = sum(1 for c in lists if any(int(n) < 0 for n in c.default))
     net_req = graph_request(cells, roots, certificate(graph_succ(cells)))
     # edge level: the dependencies between signal bits that the netlist (comb_edges_to) shows, against the Spec reading
     netdeps = netlist_signal_deps(netlist, cells, pos, sigs)
@@ -975,7 +1169,7 @@ def run_cycle_case(case, public_too):
         except Exception as e:  # noqa: BLE001
             public = common.errkind(e)
     return {"abs_req": abs_req, "net_req": net_req, "impl": impl, "pathlen": pathlen, "public": public,
-            "problems": problems, "ncells": len(cells), "edge_diff": edge_diff[:4]}
+            "problems": problems, "ncells": len(cells), "edge_diff": edge_diff[:4], "defaults": defaults}
 
 
 def enum_index_to_case(n, idx):
@@ -1009,6 +1203,12 @@ def cycle_worker(task):
             res = run_cycle_case(case, public_too=(idx % 16 == 0))
             out.append(({"family": "cycle-enum", "n": n, "index": idx, "adj": case["adj"], "lab": case["lab"],
                          "mode": case["mode"]}, res))
+    elif kind == "default":
+        _k, seed, n = task
+        rng = random.Random(seed)
+        for _ in range(n):
+            case = gen_default_case(rng)
+            out.append((case, run_cycle_case(case, public_too=True)))
     elif kind == "cases":
         for case in task[1]:
             out.append((case, run_cycle_case(case, public_too=True)))
@@ -1046,6 +1246,24 @@ def judge_cycles(chk, records, stream):
                 chk.hist("cycle.cond", str(st.get("cond")))
             if d["spec"] == "cyclic":
                 chk.hist("cycle.pathlen", res["pathlen"])
+        dd = res.get("defaults")
+        if dd is not None:
+            # designs with an unconditional assignment followed by conditional ones to the same bits (all streams)
+            chk.hist("cycle.default.class", dd["class"])
+            chk.hist("cycle.default.netlist", "assignment list with a wire as default" if dd["with_wire_default"] else
+                     ("assignment list, default constant or cell output" if dd["assignment_lists"] else "no assignment list"))
+            if dd["class"] == "loop closes only through a default" and dd["with_wire_default"]:
+                chk.hist("cycle.default.class", "loop closes only through a default that is a wire in the netlist")
+            if stream == "default":
+                sh = case["shape"]
+                chk.hist("cycle.default.template", f"{sh['template']}:{sh['intent']}" + (":overrides-read-the-ring" if sh["back"] else ""))
+                for part in sh["parts"]:
+                    chk.hist("cycle.default.parts", part)
+                for st in case["stmts"]:
+                    if st.get("role") == "override":
+                        chk.hist("cycle.default.override", f"{st['cond']}:{'bit-precise' if st['kind'] in BIT_KINDS else 'word-level'}:" +
+                                 ("whole signal" if st["hi"] - st["lo"] == case["widths"][st["tsig"]] else "part of the signal"))
+                    chk.hist("cycle.default.domain", st["dom"])
         replay = {"family": case.get("family", "cycle"), "case": case, "impl": impl, "impl_pathlen": res["pathlen"],
                   "public_api": res["public"], "spec_abstract": spec_abs, "spec_netlist": spec_net,
                   "model_netlist": model_net, "model_netlist_pathlen": d["len"], "model_unfixed_netlist": d["unfixed"],
@@ -1059,7 +1277,8 @@ def judge_cycles(chk, records, stream):
             # or the harness misreads a construct - stmt_deps - and has to be corrected.)
             chk.hist("violations", f"cycle:{stream}:" + ",".join(replay.get("classes", ["unclassified"])))
             chk.violation(f"combinational cycle: real code says {impl}, Spec says {spec_abs} "
-                          f"({case.get('family', 'cycle')} {case.get('index', '')})", replay)
+                          f"({case.get('family', 'cycle')} {case.get('index', '')}" +
+                          (f" default+override {case['shape']['template']} {case['shape']['parts']}" if "shape" in case else "") + ")", replay)
         elif res["public"] is not None and res["public"] != impl:
             chk.hist("violations", "cycle:public-api")
             chk.violation(f"combinational cycle: public API says {res['public']}, check_comb_cycles says {impl}", replay)
@@ -1082,6 +1301,9 @@ def judge_cycles(chk, records, stream):
                 chk.hist("not_shown", "cycle:hypothesis")
                 chk.not_shown("a hypothesis of the cycle theorems does not hold of the dumped netlist "
                               f"(covers={d['covers']}, {res['problems'][:2]})", replay)
+        if stream == "default" and len(chk.cov["samples"]) < 5:
+            chk.sample({"family": "cycle (default + override)", "shape": case["shape"], "stmts": case["stmts"][:5],
+                        "impl": impl, "spec": spec_abs, "model_on_netlist": model_net, "defaults": res.get("defaults")})
         if stream == "random" and len(chk.cov["samples"]) < 6 and len(case["stmts"]) >= 2:
             chk.sample({"family": "cycle", "stmts": [{k: v for k, v in st.items()} for st in case["stmts"][:4]],
                         "impl": impl, "spec": spec_abs, "model_on_netlist": model_net})
@@ -1116,6 +1338,26 @@ def corpus_cases():
                     dict(st(0, 1, "xor", [[[0, 3]], [[2, 0]]]), tsig=1)]),
         dict(base, widths=[4, 1, 4], ports=[0, 1, 2],
              stmts=[st(0, 4, "mux", [[[1, 0]], [[2, 0], [0, 0], [0, 1], [0, 2]], [[2, 0], [2, 1], [2, 2], [2, 3]]])]),
+    ] + [
+        # a loop that closes through the *default* of an overridden signal:  a = <wiring of b>; if c: a = 0; b = <wiring of a>
+        # (signals: 0 = a, 1 = b, 2 = c), and the legal neighbours that shift instead of rotating
+        dict(base, widths=[4, 4, 1], ports=[0, 1, 2],
+             stmts=[st(0, 4, "copy", [dflt], role="default"),
+                    st(0, 4, "copy", [[["c", 0]] * 4], cond="if1", cbits=[[2, 0]], role="override"),
+                    dict(st(0, 4, "copy", [close], role="close"), tsig=1)])
+        for dflt, close in [
+            ([[1, 0], [1, 1], [1, 2], [1, 3]], [[0, 1], [0, 2], [0, 3], [0, 0]]),        # a = b,        b = rotate(a)   (loop)
+            ([[1, 3], [1, 2], [1, 1], [1, 0]], [[0, 1], [0, 2], [0, 3], [0, 0]]),        # a = b[::-1],  b = rotate(a)   (loop)
+            ([[1, 2], [1, 3], [1, 0], [1, 1]], [[0, 0], [0, 1], [0, 2], [0, 3]]),        # a = Cat(b[2:], b[:2]), b = a  (loop)
+            ([[1, 0], [1, 1], [1, 2], [1, 3]], [[0, 1], [0, 2], [0, 3], ["c", 0]]),      # a = b,        b = a >> 1      (legal)
+            ([[1, 1], [1, 2], [1, 3], ["c", 0]], [[0, 0], [0, 1], [0, 2], [0, 3]]),      # a = b >> 1,   b = a           (legal)
+        ]
+    ] + [
+        # the same within one signal: a = rotate(a) / a = a >> 1, then a partial override
+        dict(base, widths=[4, 1], ports=[0, 1],
+             stmts=[st(0, 4, "copy", [dflt], role="default"),
+                    st(1, 3, "not", [[[1, 0], [1, 0]]], cond="else", cbits=[[1, 0]], role="override")])
+        for dflt in [[[0, 1], [0, 2], [0, 3], [0, 0]], [[0, 1], [0, 2], [0, 3], ["c", 0]]]
     ]
 
 
@@ -1183,6 +1425,7 @@ def run(chk):
     quick = chk.tier == "quick"
     n_conf = int(os.environ.get("C06_CONFLICTS", 4000 if quick else 40000))
     n_cyc = int(os.environ.get("C06_CYCLES", 2500 if quick else 30000))
+    n_def = int(os.environ.get("C06_DEFAULTS", 1000 if quick else 12000))
     full4 = os.environ.get("C06_ENUM_MIRROR") != "1"
     t0 = time.time()
     tasks = []
@@ -1201,6 +1444,8 @@ def run(chk):
 
     # ---- (ii) cycles ---------------------------------------------------------------------------
     tasks.append(("cycle", ("cases", corpus_cases())))
+    per = max(25, n_def // (WORKERS * 4))
+    tasks += [("cycle", ("default", rng.getrandbits(48), per)) for _ in range((n_def + per - 1) // per)]
     per = max(25, n_cyc // (WORKERS * 4))
     tasks += [("cycle", ("random", rng.getrandbits(48), per)) for _ in range((n_cyc + per - 1) // per)]
     # small graphs: quick = all graphs on <= 3 nets with every labelling + a seeded 1/256 sample of the 4-net ones;
@@ -1247,6 +1492,12 @@ def run(chk):
         "35% bit-disjoint by construction (legal near-misses). distinct = the drive list; non-trivial = at least two drives. "
         "cycles: up to 12 signal bits in 1-4 signals over 1-3 modules, one statement per target slice, bit-precise or "
         "word-level kind, optional condition, forward-only (acyclic by construction) or with 1-2 back edges or free; "
+        "defaults: rings of 1-3 signals in which every member but the last is assigned unconditionally from a pure rearrangement "
+        "(identity / reversal / rotation / half swap / shift, as slices and Cat) of the next one and then overridden under a condition "
+        "(whole or part of the signal, any operator, conditions and operands from inputs, 15 % also from the ring), the last member closes "
+        "the ring (rearrangement, ~, ^, or + / -); the unconditional assignment covers the whole signal, one of two halves driven from "
+        "two modules, all but one bit, or sits in the sync domain; intended loop / legal (indices move one way only) / free; "
+        "coverage.distribution cycle.default.* says how often the loop closes only through such a default; "
         "distinct = abstract graph + dumped netlist graph; every case exercises the traversal.")
     chk.assumptions += [
         "the harness's per-construct reading of dependencies (stmt_deps) - cross-checked on every case against the dumped netlist",
